@@ -112,10 +112,24 @@ hook_links = wrap(_links)
 
 
 # --------------------------------------------------------------------------------- C04
+def _rotated(ix, pool, i):
+    """Query order with locality: first the LRU queried last before the request (a stale
+    one-entry cache would answer it), then the pool rotated so that the last one varies."""
+    if not pool:
+        return pool
+    k = (i * 7) % len(pool)
+    order = pool[k:] + pool[:k]
+    last = getattr(ix, "last_queried", None)
+    if last is not None:
+        order = [last] + order
+    ix.last_queried = order[-1]
+    return order
+
+
 def _resolve(ix, driver, i, op, res):
     t = ix.t
     rows = []
-    for l in pool_of(ix, driver):
+    for l in _rotated(ix, pool_of(ix, driver), i):
         we, e1 = guarded(lambda: t.retrieve_webentity(l))
         p, e2 = guarded(lambda: t.retrieve_prefix(l))
         by, e3 = guarded(lambda: t.get_webentity_by_prefix(l))
@@ -130,7 +144,7 @@ hook_resolve = wrap(_resolve)
 def _potential(ix, driver, i, op, res):
     t = ix.t
     rows = []
-    for l in pool_of(ix, driver):
+    for l in _rotated(ix, pool_of(ix, driver), i):
         if driver is not None and not driver.family_ok([l]):
             continue
         p, e = guarded(lambda: t.get_potential_prefix(l))
